@@ -54,6 +54,7 @@ class _FirstCause:
         self.known = False
         self.waiters = []
         self.disc_at = None
+        self.disc_waiters = []
 
     def note(self, cls) -> None:
         if not self.known and self.s.conn.connection_state is not CLOSED:
@@ -85,6 +86,7 @@ class _FirstCause:
             # disconnect() first waits up to 5 s for the pending connect phase; if that does not finish,
             # the timeout of that wait is the first fatal cause (the statement's constant: 5 s)
             self.disc_at = self.s.loop.time()
+            self.disc_waiters = [t for k, t, i in self.s.tasks if k == "finish" and i.get("started") and not t.done()]
         elif ev in (E.RESET, E.FORCE, E.DISCONNECT, E.CANCEL, E.CONNECT_ERR, E.RESOLVE_ERR, E.WRITEFAIL):
             # these either carry no single specified class or their effect depends on timing
             self.note(None)
@@ -95,13 +97,18 @@ class _FirstCause:
     def after_event(self, ev) -> None:
         if self.known or self.disc_at is None:
             return
+        if self.s.loop.time() >= self.disc_at + 5.0:
+            # no other cause was noted in between: the disconnect's wait for the connect phase timed out
+            # (the connection may already be closed again by the time we look -- without a completed
+            # handshake disconnect() closes right after the timeout)
+            self.known = True
+            self.cls = TimeoutAPIError
+            self.waiters = list(self.disc_waiters)
+            return
         if self.s.conn.connection_state is CLOSED or not self._finish_waiting():
             self.disc_at = None
             if self.s.conn.connection_state is CLOSED:
                 self.note(None)
-            return
-        if self.s.loop.time() >= self.disc_at + 5.0:
-            self.note(TimeoutAPIError)
 
 
 def _run(events: list) -> bool:
